@@ -595,13 +595,22 @@ SPEC["C04"] = {
      (f) hence it is accepted and parses to EXACTLY the tree that was printed, and printing that tree again
          gives the same text (C04_print_parse_roundtrip, C04_print_fixed_point) — unbounded over tables,
          scripts, nesting depth, values.
-   Not proved: trees that are not in canonical form (arguments given in another order, repeated tags — the
-   printed text is then a different script with the same maps; equality of maps, not of trees), multi-line
-   strings, the commands outside wf_def (known findings).  The printer model is tied to commands.py by
-   comparing the printed text of every accepted input, and the round trip itself (print, re-parse, compare
-   trees as maps, print again, compare text) is evaluated on the implementation over enumerations, generated
+     (g) every legal argument list has a canonical reordering with the same meaning (sieve/CanonFacts.v:
+         C04_legal_canonical -- the arguments read off the maps in definition order are legal again and give
+         maps with the same value under every key), hence every script of the grammar has a canonical twin
+         whose tree has the same content and the SAME printed text (sieve/CanonTree.v), and so for EVERY
+         printable script of the grammar, whatever the order of its arguments and with repeated tags: the
+         printed text of its tree is accepted, parses to a tree with the same content [nsim] (same
+         definitions, same value under every key, same nesting and order), and printing that tree gives the
+         same text (C04_print_parse_general).  Table conditions [tbl_ok] (names consistent and identifiers,
+         argument names distinct, no slot taking both numbers and strings) are re-checked by computation on
+         the tables regenerated from /repo.
+   Not proved: multi-line (`text:`) values in the printing theorems, the commands outside wf_def (known
+   findings).  The printer model is tied to commands.py by comparing the printed text of every accepted
+   input, and the round trip itself (print, re-parse, compare trees as maps, print again, compare text) is
+   evaluated on the implementation over enumerations, generated
    scripts, layouts, mutants, repeated tags and a quoting-edge value generator.""",
-    "imports": SIEVE_IMPORTS + "From SV Require Import TotalFacts LexerFacts CompleteFacts CompleteTree CompleteExamples RenderFacts PrintTree PrintExamples.\n",
+    "imports": SIEVE_IMPORTS + "From SV Require Import TotalFacts LexerFacts CompleteFacts CompleteTree CompleteExamples RenderFacts PrintTree CanonFacts CanonTree PrintExamples.\n",
     "theorems": [
         ("C04_lexed_strings_exact", "LexerFacts.lexed_strings_exact", "every string token delivered by the lexer is an exact string token"),
         ("C04_item_printed_unchanged", "LexerFacts.print_item_exact", "the list-item printer leaves a string token alone, whatever it contains"),
@@ -614,6 +623,14 @@ SPEC["C04"] = {
         ("C04_tosieve_layout", "PrintTree.tosieve_layout", "the model of Command.tosieve prints exactly that layout for a tree in canonical form"),
         ("C04_print_parse_roundtrip", "PrintTree.print_parse_roundtrip", "tree level: parse (print tree) = tree"),
         ("C04_print_fixed_point", "PrintTree.print_fixed_point", "printing the re-parsed tree reproduces the text"),
+        ("C04_legal_canonical", "CanonFacts.legal_canonical",
+         "the canonical reordering of a legal argument list: legal again, same content, and it is what the maps say in definition order"),
+        ("C04_canonical_twin", "CanonTree.canon_of_cmds",
+         "every well-formed printable script has a canonical twin: same content, same printed text"),
+        ("C04_print_parse_general", "CanonTree.print_parse_general",
+         "tree level, whole grammar, any argument order: parse (print tree) has the same content as tree and prints to the same text"),
+        ("C04_example_general", "PrintExamples.ex2_roundtrip",
+         "non-vacuity: a script with upper-case names, tags out of order and a repeated tag"),
         ("C04_example_canonical", "PrintExamples.ex_canon", "non-vacuity on the tables generated from /repo: the tree of the example script (require, if/elsif/else, anyof, not, nested blocks, tags with parameters, numbers, lists) is canonical"),
         ("C04_example_roundtrip", "PrintExamples.ex_roundtrip", "... and the theorem gives its round trip"),
         ("raw", r'''(* non-vacuity: hostile contents are exact string tokens; and the model round trip on a concrete script *)
@@ -681,6 +698,8 @@ SPEC["C03"] = {
          "a command sequence emits exactly its nodes, in order, into the result (top level) or the children of the block owner"),
         ("C03_parse_script", "CompleteTree.parse_script",
          "on texts: the tree of the derivation, nothing else"),
+        ("C03_parse_commented_script", "CompleteTree.parse_commented_script",
+         "hash comments before top-level commands end up, stripped, in the comments of exactly that command; nothing else changes"),
         ("C03_script_example", "CompleteExamples.ex_wf",
          "non-vacuity on the generated tables"),
         ("raw", r'''(* non-vacuity: vacation with tags, a number, a list and a string, from its text *)
